@@ -329,7 +329,20 @@ def u_drain_metric(strategy):
         hs, 'carbon.cache:DrainStrategy.choose_item', 'C02/drain_metric')
     hs.ip.specs.update(specs)
     enable_rely_R(hs)
-    hs.install_lock_hooks('C02/drain_metric')
+    d = hs.data
+    snap = {}
+
+    def on_acq(ip):
+      snap['acq'] = d.snapshot()
+      snap['size_acq'] = hs.cache.fields['size']
+      m = z3.Const('m?', Atom)
+      # I_nonempty is part of the lock invariant (C17)
+      ip.ctx.assume(z3.ForAll([m], z3.Implies(z3.Select(d.keys, m), IM.icard(z3.Select(d.inner, m)) >= 1)))
+
+    def on_rel(ip):
+      snap['rel'] = d.snapshot()
+      snap['size_rel'] = hs.cache.fields['size']
+    hs.install_lock_hooks(['C02/drain_metric', 'C17/drain_metric'], on_acquire=on_acq, on_release=on_rel)
     raised = None
     try:
       r = hs.ip.run(CACHE + '.drain_metric', [], self_obj=hs.cache)
@@ -345,16 +358,35 @@ def u_drain_metric(strategy):
     if not ok_shape:
       return
     mm, dps = r
+    gp = getattr(hs, 'ghost_popped', None)
     if mm is None:
       ctx.cover('drain_metric/none')
       ctx.check('C02/drain_metric/none_means_empty_batch',
                 z3.BoolVal(isinstance(dps, PyList) and len(dps.items) == 0))
-      ctx.check('C02/drain_metric/none_leaves_cache', z3.BoolVal(getattr(hs, 'ghost_popped', None) is None))
-    else:
-      ctx.cover('drain_metric/some')
-      gp = getattr(hs, 'ghost_popped', None)
-      ctx.check('C02/drain_metric/batch_is_pop_of_chosen',
-                z3.BoolVal(gp is not None and gp[2] is dps and z3.eq(gp[0], mm)))
+      ctx.check('C02/drain_metric/none_leaves_cache',
+                z3.BoolVal(gp is None) if 'rel' not in snap else
+                z3.And(snap['rel'].keys == snap['acq'].keys, snap['rel'].inner == snap['acq'].inner, snap['size_rel'] == snap['size_acq']))
+      return
+    ctx.cover('drain_metric/some')
+    if gp is not None:
+      # no-strategy branch: the batch is pop(chosen) (pop's contract)
+      ctx.check('C02/drain_metric/batch_is_pop_of_chosen', z3.BoolVal(gp[2] is dps and z3.eq(gp[0], mm)))
+      ctx.check('C17/drain_metric/nonempty_batch[%s]' % strategy, z3.BoolVal(True))
+      return
+    # strategy branch: chosen and popped inside one lock region
+    ok = 'rel' in snap and isinstance(dps, SymSeq) and z3.is_expr(mm)
+    ctx.check('C02/drain_metric/choose_and_pop_in_one_lock_region', z3.BoolVal(bool(ok)))
+    if not ok:
+      return
+    acq, rel = snap['acq'], snap['rel']
+    im = z3.Select(acq.inner, mm)
+    ctx.check('C02/drain_metric/chosen_was_cached', z3.Select(acq.keys, mm))
+    ctx.check('C02/drain_metric/removed', z3.And(rel.keys == z3.Store(acq.keys, mm, z3.BoolVal(False)), rel.inner == acq.inner))
+    ctx.check('C02/drain_metric/size', snap['size_rel'] == snap['size_acq'] - IM.icard(im))
+    for l, f in sorted_items_facts(dps, IM.ikeys(im), IM.ivals(im), IM.icard(im)):
+      ctx.check('C02/drain_metric/batch/' + l, f)
+    ctx.check('C17/drain_metric/nonempty_batch[%s]' % strategy, dps.length() >= 1)
+    ctx.check('C09/drain_metric/check_follows', bp_inv(hs))
   return run
 
 
